@@ -288,6 +288,43 @@ pub fn run(ctx: &Ctx) -> Outcome {
                         }
                     }
                 }
+                // "... and in the far future where the footer rule governs": neither reference can be asked beyond year 9999 (zoneinfo)
+                // or about 5.88 million (glibc multiplies the year by 365 in an int), so the far future is tied to the compared years by
+                // the calendar's own period: the Gregorian calendar repeats every 146 097 days = 20 871 weeks, hence the footer rule's
+                // answer at u + k * 400 years is its answer at u (compared with both references above), for every k that keeps the
+                // year inside the supported range (seeded change C10-r13bm2: the week-day arithmetic of Mm.w.d narrowed to i32).
+                if last_u.map(|l| r.s(2040).min(r.e(2040)) > l + 86400 * 400).unwrap_or(true) {
+                    const P: i64 = 146_097 * 86_400;
+                    for y in [2040i64, 2101] {
+                        for base in [r.s(y), r.e(y)] {
+                            for d in [-86_400i64, -1, 0, 1, 86_400] {
+                                let u = base + d;
+                                let Ok(near) = zr.find_local_time_type(u) else { continue };
+                                for k in [1i64, 25, 14_000, 14_704, 14_705, 15_000, 250_000, 5_000_000] {
+                                    let u2 = u + k * P;
+                                    st.eval(1);
+                                    let far = zr.find_local_time_type(u2).map_err(|e| Failure::new("far", format!("{name}: lookup at u={u2} ({k} x 400 years after {u}) failed: {e:?}"), json!({"what": name})))?;
+                                    if (far.ut_offset(), far.is_dst(), far.time_zone_designation()) != (near.ut_offset(), near.is_dst(), near.time_zone_designation()) {
+                                        return Err(Failure::new(
+                                            "far",
+                                            format!("{name}: footer rule at u={u2} ({k} x 400 years after u={u}, same calendar position) gives offset {} '{}', at u={u} (where both references agree) offset {} '{}'", far.ut_offset(), far.time_zone_designation(), near.ut_offset(), near.time_zone_designation()),
+                                            json!({"what": name}),
+                                        ));
+                                    }
+                                    let dt = DateTime::from_timespec(u2, 0, zr).map_err(|e| Failure::new("far", format!("{name}: from_timespec({u2}) failed: {e:?}"), json!({"what": name})))?;
+                                    let cv = cal::civil_from_unix(u2 as i128 + far.ut_offset() as i128);
+                                    if (dt.year() as i64, dt.month() as i64, dt.month_day() as i64, dt.hour() as i64, dt.minute() as i64, dt.second() as i64) != (cv.y, cv.mo, cv.d, cv.h, cv.mi, cv.s) {
+                                        return Err(Failure::new("far", format!("{name}: from_timespec({u2}) gives {dt}, expected {cv:?}"), json!({"what": name})));
+                                    }
+                                    st.class("far_future_by_400_year_period");
+                                    if d.abs() <= 1 {
+                                        st.nontrivial(&(fi, u2));
+                                    }
+                                }
+                            }
+                        }
+                    }
+                }
             }
             for (u, kind) in instants {
                 // zoneinfo handles years 1..9999 only; keep all queries inside 1800..2500
